@@ -202,7 +202,10 @@ Record tstate := {
   t_excount : N;            (* ..._execution_count: grows during a query, reset by the next one *)
   t_pre : list (N * N);     (* (context, flow scope) keys present in some predefined_names *)
   t_dyn : N;                (* inference_state.dynamic_params_depth *)
-  t_memo : list (N * bool)  (* memoize_cache: key, and whether the entry is the recursion default *)
+  t_memo : list (N * (bool * bool * bool))
+                            (* memoize_cache: key |-> (the entry is the recursion default,
+                               flow_analysis_enabled and is_analysis when it was written) -
+                               the key of the real cache contains NEITHER flag *)
 }.
 
 Definition idle_state : tstate :=
@@ -231,14 +234,18 @@ Definition upd_memo m s := {| t_flow := t_flow s; t_ana := t_ana s; t_rec := t_r
 Definition key2_eqb (a b : N * N) : bool := N.eqb (fst a) (fst b) && N.eqb (snd a) (snd b).
 Fixpoint remove_first (k : N * N) (l : list (N * N)) : list (N * N) :=
   match l with [] => [] | x :: r => if key2_eqb k x then r else x :: remove_first k r end.
-Fixpoint memo_set (k : N) (d : bool) (m : list (N * bool)) : list (N * bool) :=
+Definition mentry := (bool * bool * bool)%type.
+Fixpoint memo_set (k : N) (d : mentry) (m : list (N * mentry)) : list (N * mentry) :=
   match m with
   | [] => [(k, d)]
   | (k', d') :: r => if N.eqb k k' then (k, d) :: r else (k', d') :: memo_set k d r
   end.
 
-Fixpoint memo_get (k : N) (m : list (N * bool)) : option bool :=
+Fixpoint memo_get (k : N) (m : list (N * mentry)) : option mentry :=
   match m with [] => None | (k', d) :: r => if N.eqb k k' then Some d else memo_get k r end.
+(* the entry for k is a recursion default *)
+Definition memo_default (k : N) (m : list (N * mentry)) : bool :=
+  match memo_get k m with Some (d, _, _) => d | None => false end.
 
 (* the primitive writes, as they can be observed one by one on the real objects *)
 Inductive event :=
@@ -264,7 +271,7 @@ Definition step (s : tstate) (e : event) : tstate :=
   | EPreDel c k => upd_pre (remove_first (c, k) (t_pre s)) s
   | EDynInc => upd_dyn (N.succ (t_dyn s)) s
   | EDynDec => upd_dyn (N.pred (t_dyn s)) s
-  | EMemo k d => upd_memo (memo_set k d (t_memo s)) s
+  | EMemo k d => upd_memo (memo_set k (d, t_flow s, t_ana s) (t_memo s)) s
   end.
 
 Definition run_trace (tr : list event) (s : tstate) : tstate := fold_left step tr s.
@@ -283,7 +290,8 @@ Inductive op :=
 | OExec (f : N) (b : op)         (* execution_recursion_decorator: push; try: b  finally: pop *)
 | OPredef (c k : N) (b : op)     (* predefine_names *)
 | ODyn (b : op)                  (* dynamic_params: depth += 1; try: b  finally: depth -= 1 *)
-| OMemo (k : N) (b : op).        (* _memoize_default(default=..): memo[k] := default; b; memo[k] := rv *)
+| OMemo (k : N) (b : op).        (* _memoize_default(default=..): if k in memo: return memo[k]
+                                    else memo[k] := default; b; memo[k] := rv        (no try/finally) *)
 
 Fixpoint mem_N (n : N) (l : list N) : bool :=
   match l with [] => false | x :: r => N.eqb n x || mem_N n r end.
@@ -318,9 +326,13 @@ Fixpoint exec (o : op) (s : tstate) : tstate * bool * list event :=
       let '(s1, r1, t1) := exec b (step s EDynInc) in
       (step s1 EDynDec, r1, EDynInc :: t1 ++ [EDynDec])
   | OMemo k b =>
-      let '(s1, r1, t1) := exec b (step s (EMemo k true)) in
-      if r1 then (s1, true, EMemo k true :: t1)
-      else (step s1 (EMemo k false), false, EMemo k true :: t1 ++ [EMemo k false])
+      match memo_get k (t_memo s) with
+      | Some _ => (s, false, [])           (* cache hit: whatever was stored, under whatever flags *)
+      | None =>
+          let '(s1, r1, t1) := exec b (step s (EMemo k true)) in
+          if r1 then (s1, true, EMemo k true :: t1)
+          else (step s1 (EMemo k false), false, EMemo k true :: t1 ++ [EMemo k false])
+      end
   end.
 
 (* every API entry point first calls reset_recursion_limitations *)
